@@ -134,10 +134,27 @@ def runUpdater (u : Updater) (now : Val) (parent : Val) (field : String) (value 
   | .max, .doc fs => do
     let r ← pyMax ((dget field fs).getD value) value
     pure (.doc (dset field r fs))
+  | .max, .arr xs => do
+    -- `_pick_updater` on a list: compare with the element, or pad and store (`_set_updater`)
+    let i ← listIndex field
+    if i < 0 then .error .writeErr
+    else match xs[i.toNat]? with
+      | some old => do
+        let r ← pyMax old value
+        pure (.arr (xs.set i.toNat r))
+      | none => pure (.arr (listSetPad xs i.toNat value))
   | .max, p => .ok p
   | .min, .doc fs => do
     let r ← pyMin ((dget field fs).getD value) value
     pure (.doc (dset field r fs))
+  | .min, .arr xs => do
+    let i ← listIndex field
+    if i < 0 then .error .writeErr
+    else match xs[i.toNat]? with
+      | some old => do
+        let r ← pyMin old value
+        pure (.arr (xs.set i.toNat r))
+      | none => pure (.arr (listSetPad xs i.toNat value))
   | .min, p => .ok p
   | .pop, p => do
     let last ← popSpec value
@@ -202,10 +219,12 @@ def updateFields (u : Updater) (now : Val) (v : Val) (d : Val) : R Val :=
 
 /-! ### `_get_subdocument` (non-positional) as a path transformer
 
-`withSubdoc parts following subspec f d` = the document after `subdocument, field =
-_get_subdocument(d, spec, parts)` followed by the in-place edit `f subdocument field`. -/
+`withSubdoc f create parts following subspec d` = the document after `subdocument, field =
+_get_subdocument(d, spec, parts, create_missing=create)` followed by the in-place edit
+`f subdocument field`; with `create = false` a missing intermediate sub-document ends the walk
+(`return None, None`) and the caller leaves the document alone. -/
 
-def withSubdoc (f : Val → String → R Val) :
+def withSubdoc (f : Val → String → R Val) (create : Bool) :
     List String → Bool → Val → Val → R Val
   | [], _, _, d => .ok d
   | [last], following, _, d =>
@@ -227,9 +246,11 @@ def withSubdoc (f : Val → String → R Val) :
           else match xs[i.toNat]? with
             | none => .error .indexErr
             | some sub => do
-              let sub' ← withSubdoc f rest false .null sub
+              let sub' ← withSubdoc f create rest false .null sub
               pure (.arr (xs.set i.toNat sub'))
     | .doc fs =>
+      if !create && (dget part fs).isNone then .ok d
+      else
       let sub := (dget part fs).getD (.doc [])
       -- spec following only matters for `$`; it must not trip over a non-document spec
       let (following', subspec', bad) :=
@@ -241,15 +262,22 @@ def withSubdoc (f : Val → String → R Val) :
           | _ => (false, Val.null, true)
       if bad then unmodelled
       else do
-        let sub' ← withSubdoc f rest following' subspec' sub
+        let sub' ← withSubdoc f create rest following' subspec' sub
         pure (.doc (dset part sub' fs))
+    | .str s =>
+      -- `subfield not in parent_doc` is a substring test: without `create` the walk ends there
+      if !create && !isInfixChars part.toList s.toList then .ok d else .error .typeErr
     | _ => .error .typeErr
 
 /-! ### the in-line array operators -/
 
-/-- `[obj for obj in each if obj not in target]` appended to `target` -/
+/-- `_values_to_add_to_set(existing, values)`: the values not in `existing` yet, each once -/
+def valuesToAdd (existing : List Val) (values : List Val) : List Val :=
+  values.foldl (fun toAdd v => if !pyIn v existing && !pyIn v toAdd then toAdd ++ [v] else toAdd) []
+
+/-- `target += _values_to_add_to_set(target, each)` -/
 def addEach (target each : List Val) : List Val :=
-  target ++ each.filter (fun o => !pyIn o target)
+  target ++ valuesToAdd target each
 
 /-- the `$addToSet` edit of an existing target value `cur` (a list in the normal case) -/
 def addToSetValue (cur : Val) (value : Val) : R Val :=
@@ -295,7 +323,7 @@ def addToSetField (spec : Val) (d : Val) (field : String) (value : Val) : R Val 
           let r ← addToSetValue cur value
           pure (.doc (dset last r ps))
         | .arr _ => unmodelled
-        | _ => .error .typeErr) parts true spec d
+        | _ => .error .typeErr) true parts true spec d
 
 /-- remove the first element `==` to `o` (`list.remove`) -/
 def removeFirst (o : Val) : List Val → List Val
@@ -316,7 +344,8 @@ def pullList (value : Val) (xs : List Val) : R (List Val) :=
         pure (if m2 then removeFirst obj arr else arr)) xs
   | _ => .ok (xs.foldl (fun arr obj => if pyEq value obj then removeFirst obj arr else arr) xs)
 
-/-- the `$pull` walk: `arr = existing; for part: if part not in arr: break; arr = arr[part]` -/
+/-- the `$pull` walk: `arr = helpers.get_value_by_dot(existing, field)` (KeyError: nothing to
+    do), then the edit of `arr` when it is a list.  Sub-documents by key, arrays by index. -/
 def pullWalk (value : Val) : List String → Val → R Val
   | [], d =>
     (match d with
@@ -331,10 +360,16 @@ def pullWalk (value : Val) : List String → Val → R Val
          pure (.doc (dset part sub' fs))
        | none => .ok d)
     | .arr xs =>
-      if pyIn (.str part) xs then .error .typeErr
-      else do pure (.arr (← pullList value xs))         -- `break` leaves `arr` = this list
-    | .str s => if isInfixChars part.toList s.toList then .error .typeErr else .ok d
-    | _ => .error .typeErr
+      (match pyInt? part with
+       | none => .ok d
+       | some i =>
+         if i < 0 then unmodelled       -- Python negative indexing
+         else match xs[i.toNat]? with
+           | some sub => do
+             let sub' ← pullWalk value rest sub
+             pure (.arr (xs.set i.toNat sub'))
+           | none => .ok d)
+    | _ => .ok d
 
 def pullField (d : Val) (field : String) (value : Val) : R Val :=
   if hasDollarPart field then unmodelled
@@ -368,7 +403,8 @@ def pullAllField (spec : Val) (d : Val) (field : String) (value : Val) : R Val :
            | none => .ok parent)
         | .arr _ => unmodelled
         | .str p => if isInfixChars last.toList p.toList then .error .typeErr else .ok parent
-        | _ => .error .typeErr) parts true spec d
+        | .null => .ok parent      -- the `subdocument is not None` guard also meets a null parent
+        | _ => .error .typeErr) false parts true spec d
 
 /-- stable insertion into a list sorted by `lt` (ties keep their order) -/
 def insertSorted (lt : Val → Val → Bool) (x : Val) : List Val → List Val
@@ -466,7 +502,7 @@ def pushField (spec : Val) (d : Val) (field : String) (value : Val) : R Val :=
                let r ← pushValue cur value
                pure (.arr (xs.set i.toNat r))
          | none => .error .valueErr)
-      | _ => .error .typeErr) (splitDots field) true spec d
+      | _ => .error .typeErr) true (splitDots field) true spec d
 
 /-- `for field, value in v.items()` of an in-line operator (`v` must be a mapping) -/
 def eachField (v : Val) (d : Val) (f : Val → String → Val → R Val) : R Val :=
